@@ -299,6 +299,9 @@ def ty_requests(ctx, tables):
                     reqs.append((g, age, ev, txt))
                     reqs.append((g, age, ev, k / 100))
                     reqs.append((g, age, ev, '%d.%d' % divmod(k // 10, 10)))          # one decimal: hand timing on runs
+                    if (k // stride) % 4 == 0:
+                        reqs.append((g, age, ev, txt.replace('.', ',')))                 # the decimal comma, which every branch of both ports means to accept
+                        if kind == 'race' and k >= 6000: reqs.append((g, age, ev, mmss(k).replace('.', ',')))
                     if kind == 'race' and k >= 6000 and (k // stride) % 3 == 0:
                         reqs.append((g, age, ev, mmss(k)))
                         reqs.append((g, age, ev, mmss(k, 1)))
